@@ -71,6 +71,7 @@ type Case struct {
 	Stride int       `json:"stride"`  // enumeration stride for long inputs (<=1: every position)
 	Small  int       `json:"small"`   // byte payloads are recorded when input and output are at most this long
 	Tag    string    `json:"tag"`
+	After  bool      `json:"after"` // after Close: one more Write, then Close again (writer; response with a minifier)
 }
 
 type Ev struct {
@@ -99,6 +100,7 @@ type Session struct {
 	FF     int       `json:"ff"`
 	SF     int       `json:"sf"`
 	Gate   bool      `json:"gate"`
+	After  bool      `json:"after"` // the late Write and the second Close were actually performed
 	Small  bool      `json:"small"`
 	In     lib.Bytes `json:"in"`
 	InN    int       `json:"inn"`
@@ -172,6 +174,17 @@ func (s *sess) add(e Ev) {
 	s.mu.Lock()
 	s.ev = append(s.ev, e)
 	s.mu.Unlock()
+}
+
+func (s *sess) has(kind string) bool {
+	s.mu.Lock()
+	defer s.mu.Unlock()
+	for _, e := range s.ev {
+		if e.K == kind {
+			return true
+		}
+	}
+	return false
 }
 
 func (s *sess) class(err error) string {
@@ -547,9 +560,18 @@ func runSession(c Case) (*sess, *sink, *source, Session) {
 				done := make(chan struct{})
 				go func() { closeIt(); close(done) }()
 				graceThenOpen(s, k, done)
-				s.wait(done)
+				if !s.wait(done) {
+					return
+				}
 			} else {
 				closeIt()
+			}
+			if c.After {
+				S.After = true
+				n, err := wc.Write([]byte("x"))
+				s.add(Ev{K: "LateWriteRet", N: n, E: s.class(err), T: text(err)})
+				err = wc.Close()
+				s.add(Ev{K: "Close2Ret", E: s.class(err), T: text(err)})
 			}
 		case "reader":
 			var first chan struct{}
@@ -639,6 +661,13 @@ func runSession(c Case) (*sess, *sink, *source, Session) {
 					s.add(Ev{K: "CloseCall"})
 					err := mw.Close()
 					s.add(Ev{K: "CloseRet", E: s.class(err), T: text(err)})
+					if c.After && s.has("hook.response.select") {
+						S.After = true
+						n, err := mw.Write([]byte("x"))
+						s.add(Ev{K: "LateWriteRet", N: n, E: s.class(err), T: text(err)})
+						err = mw.Close()
+						s.add(Ev{K: "Close2Ret", E: s.class(err), T: text(err)})
+					}
 				case "mw":
 					s.add(Ev{K: "CloseCall"})
 					m.Middleware(handler).ServeHTTP(rw, req)
